@@ -12,13 +12,13 @@ def sh(cmd, cwd=None, e=None):
     return p.returncode, p.stdout
 diff = f"{demo}/change{i}.diff"
 sh(f"git -C {wt} checkout -- .")
-rc, out = sh(f"cd {demo}/demo{i} && go build -o /tmp/seed_demo_bin . && /tmp/seed_demo_bin")
+rc, out = sh(f"cd {demo}/demo{i} && go build -o /tmp/seed_demo_bin_{pid} . && /tmp/seed_demo_bin_{pid}")
 clean_pass = rc == 0
 rc, out = sh(f"git -C {wt} apply {diff}")
 assert rc == 0, out
 rc, out = sh(f"python3 /verif/tools/baseline.py {wt}")
 suite_ok = rc == 0
-rc, dout = sh(f"cd {demo}/demo{i} && go build -o /tmp/seed_demo_bin . && /tmp/seed_demo_bin")
+rc, dout = sh(f"cd {demo}/demo{i} && go build -o /tmp/seed_demo_bin_{pid} . && /tmp/seed_demo_bin_{pid}")
 demo_fails = rc != 0
 res = {}
 for c in checks:
